@@ -7,12 +7,13 @@
 // every report run through the diff loop of refreshRing; (2) random ring operations over few ids and few
 // addresses (hosts sharing addresses); (3) both interleaved, with arbitrary (also bad) reports.
 //
-// `refresh` is the diff loop of refreshRing (host_source.go) TRANSLITERATED here over the real ring's
-// operations: refreshRing itself needs a control connection (GetHosts) and cannot be called in-process.
+// `refresh` is the diff part of refreshRing (host_source.go, repaired: removals first, then additions)
+// TRANSLITERATED here over the real ring's operations (the events tier calls the real refreshRing through a
+// scripted control connection).
 //
 // Spec-backed observations: `consistent` (every host of the ring is found by its id and by its address)
 // is emitted only while the history since `reset` satisfies C16.HGuarded (ring additions on a free address,
-// refreshes with pairwise distinct accepted ids and addresses), `covered` only while it satisfies
+// refreshes with pairwise distinct accepted node addresses), `covered` only while it satisfies
 // C16.RemGuarded (ring operations only; every removal harmless); otherwise the same observations are
 // emitted as `chk` / `chkcov` (model vs code only). `nostale <n>` (no by-address entry of the addresses 0..n is
 // stale: getHostByIP never answers "known address" with nil or a host of another address) is spec-backed after
@@ -155,57 +156,48 @@ func (w *world) snapshot() string {
 	return "ids=" + join(a) + " ips=" + join(b) + " list=" + join(c)
 }
 
-// refresh: the diff loop of refreshRing (host_source.go:719-765) transliterated over the real ring:
-// r.session.ring.addHostIfMissing / currentHosts as they are, session.removeHost(h) = ring.removeHost(h.HostID())
-// (+ pool and policy, not here), startPoolFill recorded as "filled", host.update(h) is the identity on
-// (id, addresses) for the peer-sourced hosts built here.
+// refresh: the diff part of refreshRing (host_source.go, as repaired for KF-C16-4 / KF-C16-6) transliterated over the
+// real ring: r.session.ring.addHostIfMissing / currentHosts as they are, session.removeHost(h) =
+// ring.removeHost(h.HostID()) (+ pool and policy, not here), startPoolFill recorded as "filled", host.update(h) is
+// the identity on (id, addresses) for the peer-sourced hosts built here. The events tier (events.go) calls the real
+// refreshRing.
 func (w *world) refresh(filtered map[int]bool, rep []int) string {
 	prev := w.ring.CurrentHosts()
 	var filled, removed []int
-	res := "ok"
-	remove := func(h *gocql.HostInfo) {
-		removed = append(removed, w.num[h])
-		w.ring.RemoveHost(h.HostID())
-	}
+	// the accepted reported hosts by host id: of a host id reported twice the first row counts
+	reported := map[string]*gocql.HostInfo{}
 	for _, o := range rep {
 		h, ok := w.objs[o]
 		if !ok || filtered[o] {
 			continue
 		}
+		if _, ok := reported[h.HostID()]; !ok {
+			reported[h.HostID()] = h
+		}
+	}
+	// what is gone is removed before anything is added
+	for hostID, existing := range prev {
+		if h, ok := reported[hostID]; ok {
+			a, b := w.at[w.num[h]], w.at[w.num[existing]]
+			if a.caddr == b.caddr && a.addr == b.addr {
+				continue // still reported, no host IP change
+			}
+		}
+		removed = append(removed, w.num[existing])
+		w.ring.RemoveHost(existing.HostID())
+	}
+	for _, o := range rep {
+		h, ok := w.objs[o]
+		if !ok || filtered[o] || reported[h.HostID()] != h {
+			continue
+		}
 		if _, ok := w.ring.AddHostIfMissing(h); !ok {
 			filled = append(filled, o)
-		} else {
-			existing, ok := prev[h.HostID()]
-			if !ok {
-				res = "err:cannot-find-host"
-				break
-			}
-			a, b := w.at[o], w.at[w.num[existing]]
-			if a.caddr == b.caddr && a.addr == b.addr {
-				// no host IP change: host.update(h)
-			} else {
-				remove(existing)
-				if _, alreadyExists := w.ring.AddHostIfMissing(h); alreadyExists {
-					res = "err:host-already-exists"
-					break
-				}
-				filled = append(filled, o)
-			}
 		}
-		delete(prev, h.HostID())
-	}
-	if res == "ok" {
-		var rest []int
-		for _, h := range prev {
-			rest = append(rest, w.num[h])
-		}
-		sort.Ints(rest)
-		for _, o := range rest {
-			remove(w.objs[o])
-		}
+		// else: host.update(h)
 	}
 	sort.Ints(removed)
-	return res + " filled=" + joinInts(filled) + " removed=" + joinInts(removed) + " " + w.snapshot()
+	return "ok filled=" + joinInts(filled) + " removed=" + joinInts(removed) + " " + w.snapshot()
 }
 
 // notFound: the hosts of the ring that are not found by their id and by their address
@@ -426,7 +418,9 @@ func (s *shadow) rm(id int) string {
 
 func (s *shadow) refresh(filtered map[int]bool, rep []int) {
 	s.rguard = false
-	ids, addrs := map[int]bool{}, map[int]bool{}
+	// C16.GoodReport: the accepted reported hosts have pairwise distinct node addresses (host ids may repeat: the
+	// first row counts)
+	addrs := map[int]bool{}
 	good := true
 	var acc []int
 	for _, o := range rep {
@@ -434,10 +428,10 @@ func (s *shadow) refresh(filtered map[int]bool, rep []int) {
 			continue
 		}
 		a := s.at[o]
-		if ids[a.id] || addrs[a.addr] {
+		if addrs[a.addr] {
 			good = false
 		}
-		ids[a.id], addrs[a.addr] = true, true
+		addrs[a.addr] = true
 		acc = append(acc, o)
 	}
 	if !good {
@@ -449,6 +443,9 @@ func (s *shadow) refresh(filtered map[int]bool, rep []int) {
 	nl := map[int]int{}
 	for _, o := range acc {
 		a := s.at[o]
+		if _, dup := nl[a.id]; dup {
+			continue
+		}
 		if x, ok := s.live[a.id]; ok && s.at[x].addr == a.addr && s.at[x].caddr == a.caddr {
 			nl[a.id] = x
 		} else {
